@@ -22,6 +22,11 @@ Q_SPEC = "fun i o => C15q_spec cfg i o"
 
 
 def base_chart(rng):
+    if rng.random() < 0.25:
+        # sub-microsecond ticks: a shifted first event may round to time 0 and must still be rejected
+        R = rng.choice([1000000, 192])
+        tm = [[0, rng.choice([1000000000, 700000000])]]
+        return dict(R=R, tm=tm, tss=[[0, 4, None]], evs=[0, 1, 2], notes=[0, 1, 5], sus=[0, 0, 1])
     R = rng.choice([192, 480, 96])
     k = rng.choice([1, 2, 3, 4, 6])
     tm = []
